@@ -43,6 +43,8 @@ UNITS = [
     ('-pr',), ('-f',), ('a b',), ('q"z',), ('back\\slash',), ('',), ('-x',), ('-pC',), ('-f', '(="a\\tb")'),
     ('new\nline',), ('-l', 'C:\\new\\table.log'),
     ('-f', '(="\U0001F600")'), ('-b', '(="é\u2028")'), ('-l', ''), ('--',),
+    # single-dash words of other programs: forwarded verbatim after a marker, rejected before one
+    ('-rf',), ('-geometry', '80x24'),
 ]
 MARKER_UNITS = {('-r',), ('-g',), ('--run',), ('--gdb',), ('-Cr',), ('-Cg',), ('-pr',)}
 
@@ -234,13 +236,17 @@ def eval_gdb_python(cmd):
 def gen_cli(tier):
     lefts = [[], ['-C'], ['-f', 'wl_pointer'], ['--supress', '-b', '(="a b")'], ['-f', '! .motion', '-C'],
              ['-f', '(="q\\z")'], ['-f', '(="a\\tb")'], ['-f', '(="\U0001F600 é\u2028")']]
-    rights = [[], ['-f', '-r', '--gdb', '-Cg'], ['a b', 'q"z', 'back\\slash', ''], ['--run', '-p', '-l', 'x'], ['--', '-x', '--']]
+    rights = [[], ['-f', '-r', '--gdb', '-Cg'], ['a b', 'q"z', 'back\\slash', ''], ['--run', '-p', '-l', 'x'], ['--', '-x', '--'],
+              ['-rf', 'some dir', '-geometry', '80x24', '-args', '-gr']]
     markers = ['-r', '--run'] if tier == 'quick' else ['-r', '--run', '-Cr']
     for l in lefts:
         for r in rights:
             for m in markers:
                 yield {'cli': 'run', 'left': l, 'marker': m, 'right': r}
     yield {'cli': 'bare_name'}
+    # started by something that has closed standard output (a launcher, `>&-`): the program still gets its words
+    for l in ([], ['-C'], ['--supress']):
+        yield {'cli': 'run', 'left': l, 'marker': '-r', 'right': ['first', '-f', 'wl_pointer', '--gdb', 'last'], 'stdout': 'closed'}
     # nothing must run
     for words in ([], ['-p', '-r', PROG], ['-l', 'nofile', '--run', PROG], ['-f', '[', '-r', PROG], ['-b', 'a:b:c', '-r', PROG],
                   ['-rC', PROG], ['-x', '-r', PROG], [PROG, '-r', PROG], ['-f', '-r', PROG]):
@@ -260,10 +266,16 @@ def eval_cli(case):
         try:
             if case['cli'] == 'run':
                 argv = ['/venv/bin/python', main_py] + case['left'] + [case['marker']] + real([PROG]) + case['right']
-                p = subprocess.run(argv, input='q\n', capture_output=True, text=True, env=env, cwd=d, timeout=60)
+                closed = case.get('stdout') == 'closed'
+                if closed:
+                    p = subprocess.run(argv, input='q\n', stdout=None, stderr=subprocess.PIPE, text=True, env=env, cwd=d, timeout=60,
+                                       preexec_fn=lambda: os.close(1))
+                    p.stdout = ''
+                else:
+                    p = subprocess.run(argv, input='q\n', capture_output=True, text=True, env=env, cwd=d, timeout=60)
                 got = open(echo, 'rb').read().split(b'\0')[:-1] if os.path.exists(echo) else None
                 want = [w.encode() for w in case['right']] + [b'WAYLAND_DEBUG=1']
-                if got != want or p.returncode != 7 or 'child stdout marker' not in p.stdout:
+                if got != want or (not closed and (p.returncode != 7 or 'child stdout marker' not in p.stdout)):
                     V.append(Violation('cli.run', case, {'child_saw': [g.decode('utf-8', 'replace') for g in got] if got is not None else None,
                                                          'want': [w.decode() for w in want], 'returncode': p.returncode,
                                                          'stderr': p.stderr[-300:]}))
